@@ -317,12 +317,12 @@ theorem ptLabels_of_regrouped (o : Oracles) (c : Ctx) (d : LokiDb) (q : LogQuery
   · rw [h1, h2]
   · rw [h1, h2]
 
-theorem aggCore_regrouped (fn : AggFn) (pts : List Pt) (h : ∀ p ∈ pts, Regrouped p) : ∀ p ∈ aggCore fn pts, Regrouped p := by
+theorem aggCore_regrouped (fn : AggFn) (pts : List Pt) (h : ∀ p ∈ pts, Regrouped p) : ∀ p ∈ aggCore o fn pts, Regrouped p := by
   intro p hp
   unfold aggCore at hp
   obtain ⟨g, hg, hgp⟩ := List.mem_filterMap.mp hp
   obtain ⟨⟨a, rest, hgr, hk⟩, hall⟩ := groupsBy_head _ pts g hg
-  cases hv : aggVal fn (g.2.map (·.value)) with
+  cases hv : aggVal o fn (g.2.map (·.value)) with
   | none => rw [hv] at hgp; cases hgp
   | some v =>
     rw [hv] at hgp
@@ -372,12 +372,12 @@ theorem PStage.byWithoutTS {o c d q s pts L} (h : PStage o c d q s pts L) (hn : 
       rw [alias_named_beq, beq_eq_false_iff_ne]; str_ne]
     exact hT1
 
-theorem PStage.agg {o c d q s pts L} (h : PStage o c d q s pts L) (fn : AggFn) (hfn : fn ≠ .stddev ∧ fn ≠ .stdvar)
+theorem PStage.agg {o c d q s pts L} (h : PStage o c d q s pts L) (fn : AggFn)
     (cm : Option Comparison) (h2 : Alias.named "lra_main" ∉ L) :
-    PStage o c d q (cmpOpt cm (aggSel fn true s)) (cmpStage cm (aggCore fn pts)) (L ++ [.named "lra_main"]) := by
+    PStage o c d q (cmpOpt cm (aggSel fn true s)) (cmpStage cm (aggCore o fn pts)) (L ++ [.named "lra_main"]) := by
   rw [aggPhase_eq]
   apply h.wrap "lra_main" (by decide) h2 (aggBody fn (cmpHaving cm)) (cmpHaving_notBitSet cm)
-  exact agg_eval o _ _ fn hfn _ pts h.rep (by simp [List.lookup]) cm
+  exact agg_eval o _ _ fn _ pts h.rep (by simp [List.lookup]) cm
 
 end Qryn.LogQL
 
@@ -395,7 +395,6 @@ theorem map_ptLabels_regrouped (o : Oracles) (c : Ctx) (d : LokiDb) (q : LogQuer
 /-- **plan_metric_correct, class `aggOp by/without (…) (rangeFn(selector [d]) [cmp]) [cmp]`** (samples path, step ≤ range) -/
 theorem planMetric_agg_lra (o : Oracles) (c : MCtx) (hn : c.namesOk) (d : LokiDb) (a : VecAgg) (fn : RangeFn) (g : Grouping)
     (hk : a.inner.kind = .lra fn) (hg : chosenGrouping a.byPrefix a.bySuffix = some g)
-    (hfn : a.fn ≠ .stddev ∧ a.fn ≠ .stdvar)
     (hm : a.inner.sel.matchers.length ≤ 63) (hms : 1000000 ∣ a.inner.durNs) (hd : 0 < a.inner.durNs)
     (hs : takesShortcut (.agg a) = false) (hstep : c.stepNs ≤ (a.inner.durNs : Int)) :
     (evalSelA o (d.toDbM c) (planMetric c (.agg a))).map normRow = evalMetric o c d (.agg a) := by
@@ -417,7 +416,7 @@ theorem planMetric_agg_lra (o : Oracles) (c : MCtx) (hn : c.namesOk) (d : LokiDb
   have h1 := lraPhase_ok o c hn d a.inner.sel hm fn a.inner.durNs hms hd a.inner.cmp
   have h2 := h1.byWithoutTS hn hm (cmpStage_labels _ _ _ (lraPts_labels fn a.inner.durNs _)) (labelConds a.inner.sel).length g
     (by simp only [List.mem_singleton, Alias.named.injEq]; str_ne) (by simp only [List.mem_singleton, Alias.named.injEq]; str_ne)
-  have h3 := h2.agg a.fn hfn a.cmp (by
+  have h3 := h2.agg a.fn a.cmp (by
     simp only [List.mem_append, List.mem_cons, List.not_mem_nil, or_false, Alias.named.injEq, not_or]
     refine ⟨by decide, ?_, ?_⟩ <;> (apply Ne.symm; str_ne))
   rw [h3.final (by
